@@ -11,6 +11,8 @@ Strings are byte lists: 109 = 'm', 115 = 's', 107 103 = "kg", 46 = '.', 47 = '/'
 42 = '*', 40/41 = '(' ')'.
 -/
 import Barril.Proofs.StrLemmas
+import Barril.Gen.ThmNameownPosc
+import Barril.Gen.Dbs
 
 namespace Barril.Str
 
@@ -282,6 +284,115 @@ theorem unit_name_lists_every_factor (reg : Reg) (q : Quantity) (s : Str)
                 · cases hnm
               · exact ih ps hps k hk
     exact hall q.entries nps hnps p.1 hk
+
+/-! ### the list / tuple form of `ObtainQuantity` (a quantity re-obtained from its own composing units) -/
+
+/-- a request of `(unit, exponent)` pairs with a parallel list of pairwise different categories builds the
+quantity of the ordered dict of those entries -/
+theorem obtain_list_eq_dict (reg : Reg) (pairs : List (Str × Int)) (cats : List Str)
+    (hlen : cats.length = pairs.length) (hnd : cats.Nodup) :
+    obtainFromList reg pairs cats = obtainFromDict reg (zipEntries cats pairs) := by
+  have hod : odictOf (zipEntries cats pairs) = zipEntries cats pairs :=
+    odictOf_nodup _ (by rw [zipEntries_cats cats pairs hlen]; exact hnd)
+  unfold obtainFromList
+  split
+  · rename_i u e
+    split
+    · rename_i he
+      subst he
+      match cats, hlen with
+      | [c], _ => simp [zipEntries, obtainFromDict]
+    · rw [hod]
+  · rw [hod]
+
+/-- **only a single factor with exponent 1 is a simple quantity**: `[(m, 2)]` and `[(s, -3)]` stay derived -/
+theorem obtain_list_simple_iff (reg : Reg) (pairs : List (Str × Int)) (cats : List Str) (q : Quantity)
+    (hlen : cats.length = pairs.length) (hnd : cats.Nodup)
+    (hq : obtainFromList reg pairs cats = .ok q) :
+    q.derived = false ↔ ∃ u, pairs = [(u, 1)] := by
+  rw [obtain_list_eq_dict reg pairs cats hlen hnd] at hq
+  rw [obtain_simple_iff reg _ q hq]
+  constructor
+  · rintro ⟨c, u, h⟩
+    have := zipEntries_unitPairs cats pairs hlen
+    rw [h] at this
+    exact ⟨u, by simpa [unitPairs] using this.symm⟩
+  · rintro ⟨u, h⟩
+    subst h
+    match cats, hlen with
+    | [c], _ => exact ⟨c, u, by simp [zipEntries]⟩
+
+/-- **the unit string of a quantity obtained from a list of factors parses back to exactly the joined requested
+factors** (numerators in order, then denominators, each with its total exponent) -/
+theorem obtain_list_unit_string_roundtrip (reg : Reg) (pairs : List (Str × Int)) (cats : List Str) (q : Quantity)
+    (hlen : cats.length = pairs.length) (hnd : cats.Nodup)
+    (hq : obtainFromList reg pairs cats = .ok q) (hd : q.derived = true)
+    (hat : ∀ p ∈ pairs, atomic p.1 = true) :
+    parseUnit q.unit = some (nums (joinExps pairs) ++ dens (joinExps pairs)) := by
+  rw [obtain_list_eq_dict reg pairs cats hlen hnd] at hq
+  have hu := zipEntries_unitPairs cats pairs hlen
+  have := (unit_string_roundtrip reg (zipEntries cats pairs) q hq hd (by
+    intro e he
+    have : (e.unit, e.exp) ∈ unitPairs (zipEntries cats pairs) := List.mem_map.mpr ⟨e, he, rfl⟩
+    rw [hu] at this
+    exact hat _ this)).2
+  simpa [joinedUnits, hu] using this
+
+/-! ### unit names: one name factor per unit factor -/
+
+/-- when the registered names of the composing units are pairwise different (as far as the units are), the
+factor list behind the unit-name string IS the joined composing units with every symbol replaced by its
+registered name: the same factors, in the same order, with the same exponents -/
+theorem unit_name_factors_match_units (reg : Reg) (entries : List Entry) (nps : List (Str × Int)) (f : Str → Str)
+    (h : namePairs reg entries = .ok nps)
+    (hf : ∀ e ∈ entries, ∀ qt, reg.qtypeOf e.cat = .ok qt → reg.unitName qt e.unit = .ok (f e.unit))
+    (hinj : ∀ e ∈ entries, ∀ e' ∈ entries, f e.unit = f e'.unit → e.unit = e'.unit) :
+    joinExps nps = (joinedUnits entries).map (fun p => (f p.1, p.2)) := by
+  have hn : ∀ (es : List Entry) (ts : List (Str × Int)), (∀ e ∈ es, e ∈ entries) → namePairs reg es = .ok ts →
+      ts = (unitPairs es).map (fun p => (f p.1, p.2)) := by
+    intro es
+    induction es with
+    | nil => intro ts _ h; cases h; rfl
+    | cons e rest ih =>
+      intro ts hsub h
+      unfold namePairs at h
+      split at h
+      · cases h
+      · rename_i qt hqt
+        split at h
+        · cases h
+        · rename_i n hnm
+          split at h
+          · cases h
+          · rename_i ps hps
+            cases h
+            have he := hf e (hsub e (by simp)) qt hqt
+            rw [he] at hnm
+            cases hnm
+            rw [ih ps (fun x hx => hsub x (by simp [hx])) hps]
+            simp [unitPairs]
+  rw [hn entries nps (fun e he => he) h]
+  unfold joinedUnits
+  apply joinExps_rename
+  intro a ha b hb hab
+  obtain ⟨pa, hpa, rfl⟩ := List.mem_map.mp ha
+  obtain ⟨ea, hea, rfl⟩ := List.mem_map.mp hpa
+  obtain ⟨pb, hpb, rfl⟩ := List.mem_map.mp hb
+  obtain ⟨eb, heb, rfl⟩ := List.mem_map.mp hpb
+  exact hinj ea hea eb heb hab
+
+/-- **the shipped table never gives one name to units of different quantity types** (so the units of a derived
+quantity that arithmetic produces - one unit per quantity type - have pairwise different names); regenerated
+from /repo and checked by `decide +kernel` on every run -/
+theorem posc_unit_names_distinguish_types :
+    ∀ r ∈ Barril.Gen.poscDb.units, ∀ r' ∈ Barril.Gen.poscDb.units, r.name = r'.name → r.qtype = r'.qtype := by
+  intro r hr r' hr' hname
+  have h := List.all_eq_true.mp Barril.Gen.poscUnits_all_nameown r (by simpa [Barril.Gen.poscDb] using hr)
+  have h2 := List.all_eq_true.mp h r' hr'
+  simp only [Bool.or_eq_true, bne_iff_ne, ne_eq, beq_iff_eq] at h2
+  rcases h2 with h2 | h2
+  · exact absurd hname.symm h2
+  · exact h2.symm
 
 /-! ### value objects -/
 
